@@ -22,6 +22,15 @@ def mktree(rnd, base, with_dropins=True, broken=0.08):
             subs[r].append('sub')
         if '.dot/in' in subs[r] and '.dot' not in subs[r]:
             subs[r].append('.dot')
+    if rnd.random() < 0.2:
+        # configured directories may overlap: a sub-directory of a search directory is listed as a search directory of its own, *before* its
+        # parent — it keeps that place in the search order (listed after its parent it would add nothing: everything in it was seen)
+        i = rnd.randrange(len(roots))
+        nested = roots[i] + '/sub'
+        if 'sub' not in subs[roots[i]]:
+            subs[roots[i]].append('sub')
+        subs[nested] = ['']
+        roots.insert(i, nested)
     names = rnd.sample(['a.container', 'b.container', 'web.container', 'tpl@.container', 'tpl@i1.container', 'tpl@i2.container', 'v.volume', 'n.network',
                         'tpl@a@b.container', 'x.y@i.container', 'tpl@i.1.container', 'vt@.volume', 'vt@x.volume'], rnd.randint(1, 5))
     for n in names:
